@@ -3,6 +3,7 @@ CONSTANT Kernels <- K4
 CONSTANT NWs = {16}
 CONSTANT Timeouts = {TRUE, FALSE}
 CONSTANT TickEnabled = FALSE
+CONSTANT ReduceIdle = TRUE
 CONSTANT DeadlineTestFirst = TRUE
 SPECIFICATION Spec
 INVARIANT TypeOK
